@@ -5,7 +5,7 @@
      termination of the rejection loop.  CvLabels.tla: label-driven folds for ALL label vectors (gaps, unbalanced).
      CvOrch.tla: batch orchestration (bootstrap: full batches; LOO/k-fold: guarded batches): every work item once, no merge
      before join, for all (items, threads) and every completion order.
-(C)  c05_drv drives the real drivers.  helpers: the two public helpers with x[i] = i for all (n, groups);  cv: Bootstrap /
+(C)  c05_drv drives the real drivers.  tts: the public train_test_split() for every n x test fraction k/8;  helpers: the two public helpers with x[i] = i for all (n, groups);  cv: Bootstrap /
      LOO / KFoldCV for PLS, MLR, LDA on random data, hook H5 records the fold matrices, the row ids really copied into
      train/test and the create/join/merge order; the harness refits through the public API on exactly the logged training
      ids and re-runs with only y[i] changed;  labels: TLC-generated label vectors replayed through KFoldCV.
@@ -51,6 +51,8 @@ def _sig(ev, block):
         return "CV:%s:split" % scheme, "train/test split not disjoint+exhaustive or not the fold's members: %s" % ev
     if e in ("Create", "Join", "Merge"):
         return "CV:%s:orchestration" % scheme, "orchestration event out of order (merge before join / item twice): %s" % ev
+    if e == "Tts":
+        return "CV:tts:split", "train_test_split: test/training parts are not disjoint + exhaustive, or the copied rows are not the rows of the reported ids: %s" % ev
     if e == "Rows":
         return "CV:helpers:rows", "rows copied into train/test are not the rows of the logged ids"
     if e == "Pred":
@@ -126,6 +128,7 @@ def run_check(ctx):
         # helpers: all (n, groups), n 1..30, split in slices of n
         for i, (lo, hi) in enumerate([(1, 12), (13, 18), (19, 22), (23, 26), (27, 30)] if not q else [(1, 10), (11, 14), (15, 18)]):
             jobs.append([os.path.join(rd, "h%d.ndjson" % i), "helpers", ctx.seed + i, hi, lo])
+        jobs.append([os.path.join(rd, "t.ndjson"), "tts", ctx.seed + 5, 24 if q else 40])
         ncv = 8 if q else 15
         per = 12 if q else 110
         for i in range(ncv):
@@ -154,8 +157,13 @@ def run_check(ctx):
             nblocks += 1
             scheme = run.get("scheme")
             key = (scheme, run.get("algo"), run.get("n"), run.get("groups"), run.get("nth"), run.get("ny"), run.get("nlv"), tuple(run.get("lab", [])))
-            nt = scheme == "kfold" or run.get("ny", 1) > 1 or (run.get("groups") and run.get("n") % run.get("groups") != 0)
+            if scheme == "tts":
+                t = next((e for e in b if e["e"] == "Tts"), None)
+                key = ("tts", run.get("n"), t["num"] if t else -1, tuple(t["test"]) if t else ())
+            nt = scheme == "kfold" or (scheme == "tts" and t is not None and len(t["test"]) >= 1) or run.get("ny", 1) > 1 or (run.get("groups") and run.get("n") % run.get("groups") != 0)
             ctx.case(key, nt)
+        if not any(e["e"] == "Tts" and len(e["test"]) >= 2 for e in events):
+            raise InfraError("no train_test_split recording")
         if not any(e["e"] == "Groups" for e in events) or not any(e["e"] == "Create" for e in events):
             raise InfraError("no Groups/Create events: hook H5 is not firing (hooks removed or guard off)")
         for b in blocks:
